@@ -212,6 +212,45 @@ pub fn xz_wrap(payload: &[u8], content: &[u8], check: u8) -> Vec<u8> {
     .bytes
 }
 
+/// Reference agreement (writer / interpreter / reference decoder / liblzma).
+pub fn reference_check(chunks: &[Chunk], st: &mut LocalStats) -> Result<(EncodedLzma2, Vec<u8>), String> {
+    let enc = write_lzma2(chunks, false).map_err(|e| format!("generator produced illegal chunks: {}", e))?;
+    let expected = interpret_chunks(chunks).map_err(|e| format!("generated chunk program invalid: {}", e))?;
+    if enc.output != expected {
+        return Err("lzma2 writer history != interpreter".into());
+    }
+    match decode_lzma2(&enc.bytes, true, true, expected.len() + (1 << 20)) {
+        Ok(r) => {
+            if r.out != expected || r.consumed != enc.bytes.len() {
+                return Err(format!(
+                    "reference LZMA2 decoder disagrees: {} consumed {}/{}",
+                    first_diff(&r.out, &expected),
+                    r.consumed,
+                    enc.bytes.len()
+                ));
+            }
+        }
+        Err(e) => return Err(format!("reference LZMA2 decoder rejects: {:?}", e)),
+    }
+    #[cfg(feature = "liblzma")]
+    {
+        let lib = crate::ffi_liblzma::raw_lzma2(1 << 27, &enc.bytes, expected.len() + (1 << 20));
+        if !lib.ok() || lib.out != expected || lib.consumed != enc.bytes.len() {
+            return Err(format!(
+                "liblzma raw LZMA2 disagrees with reference model: ret={} consumed={}/{} {} [{}]",
+                lib.ret,
+                lib.consumed,
+                enc.bytes.len(),
+                first_diff(&lib.out, &expected),
+                chunks_text(chunks, 6)
+            ));
+        }
+        st.class("liblzma-second-opinion");
+    }
+    let _ = st;
+    Ok((enc, expected))
+}
+
 impl Property for C02 {
     type Abs = (Vec<AbsChunk>, u8, usize);
     type Case = Case;
@@ -278,45 +317,10 @@ impl Property for C02 {
         if c.chunks.is_empty() {
             return Judgement::Pass;
         }
-        let enc = match write_lzma2(&c.chunks, false) {
-            Ok(e) => e,
-            Err(e) => return Judgement::HarnessBug(format!("generator produced illegal chunks: {}", e)),
+        let (enc, expected) = match reference_check(&c.chunks, st) {
+            Ok(x) => x,
+            Err(e) => return Judgement::HarnessBug(e),
         };
-        let expected = match interpret_chunks(&c.chunks) {
-            Ok(o) => o,
-            Err(e) => return Judgement::HarnessBug(format!("generated chunk program invalid: {}", e)),
-        };
-        if enc.output != expected {
-            return Judgement::HarnessBug("lzma2 writer history != interpreter".into());
-        }
-        match decode_lzma2(&enc.bytes, true, true, expected.len() + (1 << 20)) {
-            Ok(r) => {
-                if r.out != expected || r.consumed != enc.bytes.len() {
-                    return Judgement::HarnessBug(format!(
-                        "reference LZMA2 decoder disagrees: {} consumed {}/{}",
-                        first_diff(&r.out, &expected),
-                        r.consumed,
-                        enc.bytes.len()
-                    ));
-                }
-            }
-            Err(e) => return Judgement::HarnessBug(format!("reference LZMA2 decoder rejects: {:?}", e)),
-        }
-        #[cfg(feature = "liblzma")]
-        {
-            let lib = crate::ffi_liblzma::raw_lzma2(1 << 27, &enc.bytes, expected.len() + (1 << 20));
-            if !lib.ok() || lib.out != expected || lib.consumed != enc.bytes.len() {
-                return Judgement::HarnessBug(format!(
-                    "liblzma raw LZMA2 disagrees with reference model: ret={} consumed={}/{} {} [{}]",
-                    lib.ret,
-                    lib.consumed,
-                    enc.bytes.len(),
-                    first_diff(&lib.out, &expected),
-                    chunks_text(&c.chunks, 6)
-                ));
-            }
-            st.class("liblzma-second-opinion");
-        }
         let sh = classify_chunks(&c.chunks, &enc, st);
         if sh.nontrivial {
             st.nontrivial(c);
